@@ -475,3 +475,4 @@ fn st_connect_error_unavailable() {
     core::mem::forget(e);
 }
 
+
